@@ -25,7 +25,9 @@ ZeroIdx(v) == {i \in 1..Len(v.existing) : v.existing[i].kind = "zero"}
 
 Holds18a(v) ==
   LET o == v.obs IN
-  IF v.requested = ""
+  \* the default is in force but Tor refuses to say what it is: whatever else happens, the configuration is not touched
+  IF v.lookupfails THEN o.nset = 0
+  ELSE IF v.requested = ""
   THEN IF UsableIdx(v) # {}
        THEN \* one already configured is used, configuration untouched
             o.nset = 0 /\ ~o.err /\ \E i \in UsableIdx(v) : o.ep = EpOf(v.existing[i])
